@@ -578,6 +578,32 @@ def _eng_cases(rng, tier):
         script += [("raw", "!release fw_begin"), ("cmd", "FLUSH"), ("quiesce",), ("cmd", "QUERY t")] + _qblock(qtexts)
         out.append({"kind": "engine", "line": "", "cfg": cfg, "script": [list(x) for x in script], "evs": evs, "qs": qs, "qtexts": qtexts,
                     "show": f"engine order-by-{field}-with-passive {cfg}: {len(evs)} events, " + "; ".join(qtexts)})
+    # targeted: MISSING sort keys ("for all data sets with duplicate and missing sort keys"): a nullable sort field that
+    # a third of the rows lack, rows spread over shards, memory and segments; the local sorts of the memory and the
+    # segment tier and the two merge levels must agree on where a row without the key goes
+    for i in range(4 if tier == "quick" else 80):
+        cfg = dict(rng.choice(_E.CFGS)); cfg["segments_per_merge"] = 2
+        script = [("cmd", 'DEFINE t FIELDS { k: "int", s: "int | null", g: "string" }')]
+        evs = []
+        nev = rng.range(8, 36)
+        for j in range(nev):
+            sv = None if rng.chance(1, 3) else rng.below(12)
+            pl = f'{{"k": {j}, "g": "x"}}' if sv is None else f'{{"k": {j}, "s": {sv}, "g": "x"}}'
+            script.append(("cmd", f"STORE t FOR c{rng.below(5)} PAYLOAD {pl}")); evs.append({"k": j, "s": sv})
+            if rng.chance(1, 12):
+                script += [("cmd", "FLUSH"), ("quiesce",)]
+        qs, qtexts = [], []
+        for _ in range(6):
+            desc = rng.chance(1, 2)
+            n_ = rng.choice([None, 1, 2, 3, 5, nev // 2, nev, nev + 2])
+            m_ = 0 if n_ is None else rng.choice([0, 0, 1, 2, nev // 3])
+            q = f"QUERY t ORDER BY s{' DESC' if desc else ''}" + (f" LIMIT {n_}" if n_ is not None else "") + (f" OFFSET {m_}" if m_ else "")
+            if q not in qtexts:
+                qs.append(("ordf", desc, n_, m_, "s")); qtexts.append(q)
+        script += [("quiesce",), ("cmd", "QUERY t")] + _qblock(qtexts)
+        script += [("cmd", "FLUSH"), ("quiesce",), ("cmd", "QUERY t")] + _qblock(qtexts)
+        out.append({"kind": "engine", "line": "", "cfg": cfg, "script": [list(x) for x in script], "evs": evs, "qs": qs, "qtexts": qtexts,
+                    "show": f"engine missing-sort-keys {cfg}: {nev} events, " + "; ".join(qtexts)})
     # targeted: deep pagination over one shard with thousands of flushed rows
     for i in range(1 if tier == "quick" else 6):
         cfg = dict(fill_factor=50, event_per_zone=100, shards=rng.choice([1, 1, 2]), segments_per_merge=2)
@@ -707,6 +733,10 @@ def same(c, impl, model):
     return True if c.get("kind") == "engine" else _F["same"](c, impl, model)
 
 
+def _nk(v):
+    return (v is not None, 0 if v is None else v)
+
+
 def _judge_query(spec, r, sel, selrows=None):
     kind, desc, n_, m_, thr = spec
     if kind == "ordf":
@@ -714,8 +744,9 @@ def _judge_query(spec, r, sel, selrows=None):
         if r["status"] != 200:
             return f"{spec}: status {r['status']} {r.get('message')}"
         got = [x.get(field) for x in r["rows"]]
-        pool = sorted((x.get(field) for x in (selrows or [])), reverse=bool(desc))
-        exp = pool[m_:m_ + n_]
+        # a row without the sort field sorts before every row that has it (the typed order puts Null first)
+        pool = sorted((x.get(field) for x in (selrows or [])), key=_nk, reverse=bool(desc))
+        exp = pool[m_:] if n_ is None else pool[m_:m_ + n_]
         if got != exp:
             return f"ORDER BY {field}{' DESC' if desc else ''} LIMIT {n_}: returned {got}, the first {n_} of the typed order are {exp}"
         return None
@@ -773,7 +804,8 @@ def _eng_failures(c, impl):
                 continue
             w = _judge_query(tuple(spec), r, sel, base_r["rows"])
             if w:
-                out.append((run, j, ("mixed layout: " if run == 1 else "all flushed: ") + w, [x.get("k") for x in r["rows"]]))
+                col = spec[4] if spec[0] == "ordf" and spec[4] in ("k", "s") else "k"
+                out.append((run, j, ("mixed layout: " if run == 1 else "all flushed: ") + w, [x.get(col) for x in r["rows"]]))
     return out
 
 
@@ -839,18 +871,18 @@ def classify(c, impl):
                 if spec[0] == "ordf":
                     # ORDER BY <field> LIMIT n of the passive-buffer scenario; the failure tuple carries the k column,
                     # so only ORDER BY k can be judged here - other fields stay violations
-                    if spec[4] != "k":
+                    if spec[4] not in ("k", "s"):
                         return None
-                    pool = [x["k"] for x in base_rows]
+                    pool = [x.get(spec[4]) for x in base_rows]
                 else:
                     pool = [x["k"] for x in base_rows if spec[4] is None or x["k"] >= spec[4]]
                 want = len(pool[spec[3]:] if spec[2] is None else pool[spec[3]:spec[3] + spec[2]])
                 import collections as _c
-                if keys != sorted(keys, reverse=bool(spec[1])) or len(keys) > want or (_c.Counter(keys) - _c.Counter(pool)):
+                if keys != sorted(keys, key=_nk, reverse=bool(spec[1])) or len(keys) > want or (_c.Counter(keys) - _c.Counter(pool)):
                     return None
                 # the pre-selection can only leave out FLUSHED rows: a row that is certainly still in memory (scenario
                 # knowledge) and belongs to the slice must be in the answer
-                exp = sorted(pool, reverse=bool(spec[1]))
+                exp = sorted(pool, key=_nk, reverse=bool(spec[1]))
                 exp = exp[spec[3]:] if spec[2] is None else exp[spec[3]:spec[3] + spec[2]]
                 if run == 1 and any(k in exp and k not in keys for k in c.get("mem_keys", [])):
                     return None
